@@ -57,26 +57,6 @@ theorem frame__conforming_weighted_average (p : Pattern) (hp : p.targetsFresh = 
         exact p1.trans (binop_frame p1.1 hb).1
       · exact p1
 
-theorem combineEntries_frame {n : Nat} (f : Rat → Rat → Rat) (cur nxt : List (String × Ref))
-    (ks : List (String × Ref)) : ∀ {h : Heap}, n ≤ h.size → Preserves n h (combineEntries f h cur nxt ks).1 := by
-  induction ks with
-  | nil => intro h hn; exact Preserves.refl hn
-  | cons k rest ih =>
-    intro h hn
-    obtain ⟨k, v⟩ := k
-    simp only [combineEntries]
-    split
-    · split
-      · have := ih (h := h) hn
-        split <;> simp_all
-      · split
-        · exact Preserves.refl hn
-        · rename_i h1 r hb
-          have p1 := (binop_frame hn hb).1
-          have := p1.trans (ih (h := h1) p1.1)
-          split <;> simp_all
-    · exact Preserves.refl hn
-
 /-- `_values_add` / `_values_diff`: a comprehension building a new dict of new arrays (the
 `earned_premium` entry aliases the argument's array, which is not a write) -/
 theorem frame__values_combine (p : Pattern) (hp : p.targetsFresh = true) (f : Rat → Rat → Rat) (h : Heap)
@@ -263,12 +243,6 @@ theorem frame_chain (cs : List (Heap → Heap)) (hcs : ∀ c ∈ cs, Respects c)
     apply ih (fun c' hc' => hcs c' (List.mem_cons_of_mem _ hc'))
     exact hg.trans ((hcs c (List.mem_cons_self ..) g).mono hg.1)
 
-/-- the reachable locations of an argument that lives in the heap existed at entry, so they are
-covered by `Preserves` -/
-theorem reach_head_lt {h : Heap} {l : Loc} {o : Obj} (hl : h.get l = some o) : l < h.size := by
-  simp only [Heap.get, Heap.size] at *
-  exact (List.getElem?_eq_some_iff.mp hl).1
-
 /-- the statement in terms of reachability: every location reachable from an argument that lives
 in the entry heap is unchanged after a frame-respecting call -/
 theorem frame_reachable {h h' : Heap} (hp : Preserves h.size h h') (arg : Ref)
@@ -381,43 +355,83 @@ theorem frame_of_discipline (P : List Fn) (hP : disciplined P = true) (d i : Nat
   rw [hw] at p
   exact ⟨p.1, fun l hl => p.2.1 l hl (fun ⟨j, hj, _⟩ => by cases hj)⟩
 
-/-- protected and unprotected arguments are SEPARATED in the entry heap: no location reachable from a protected
-argument is the object of an unprotected argument (checked in the correspondence by identity of the argument
-objects: the data frame is not the Metadata, nor an attribute of it) -/
+/-- protected and unprotected arguments are SEPARATED in the entry heap: no location reachable — at ANY depth
+(`Reach`: Triangle → cells → Cell → values → arrays …) — from a protected argument is the object of an
+unprotected argument (checked in the correspondence by identity of objects, walking the protected arguments
+transitively: the data frame is not the Metadata / Triangle / Cell, nor anything inside them) -/
 def separated (h : Heap) (wp : List Nat) (args : List Ref) : Prop :=
-  ∀ j arg, args[j]? = some arg → j ∉ wp → ∀ l ∈ reach h arg, ¬ callW wp args l
+  ∀ j arg, args[j]? = some arg → j ∉ wp → ∀ l, Reach h arg l → ¬ callW wp args l
 
-/-- in terms of reachability: every location reachable from a PROTECTED argument that lives in the entry heap
-holds the same object after the call -/
+/-- IN TERMS OF REACHABILITY (transitive): every location reachable, at any depth, from a PROTECTED argument
+holds the same object after the call. `h.Closed` (no dangling references) and "the arguments are live"
+discharge the well-formedness side conditions. -/
 theorem frame_protected_reachable (P : List Fn) (hP : disciplined P = true) (d i : Nat) (args : List Ref)
-    (h : Heap) (o : Oracle) (hsep : separated h (wparamsOf P i) args) (j : Nat) (arg : Ref)
-    (hj : args[j]? = some arg) (hprot : j ∉ wparamsOf P i) (hwf : ∀ l ∈ reach h arg, l < h.size)
-    (hargs : ∀ l, callW (wparamsOf P i) args l → l < h.size) :
+    (h : Heap) (o : Oracle) (hc : h.Closed) (hlive : ∀ arg ∈ args, ∀ l, arg = .loc l → l < h.size)
+    (hsep : separated h (wparamsOf P i) args) (j : Nat) (arg : Ref)
+    (hj : args[j]? = some arg) (hprot : j ∉ wparamsOf P i) :
+    ∀ l, Reach h arg l → (sem P d i args h o).1.get l = h.get l := by
+  intro l hl
+  have hargs : ∀ l, callW (wparamsOf P i) args l → l < h.size := by
+    intro l ⟨j', _, hget⟩
+    exact hlive _ (List.mem_of_getElem? hget) l rfl
+  have hmem : arg ∈ args := List.mem_of_getElem? hj
+  exact (frame_protected P hP d i args h o hargs).2.1 l (hl.lt_size hc (hlive arg hmem))
+    (hsep j arg hj hprot l hl)
+
+/-- the same for the one-level `reach` of sections 1–4 (a special case: `reach ⊆ Reach`) -/
+theorem frame_protected_reach (P : List Fn) (hP : disciplined P = true) (d i : Nat) (args : List Ref)
+    (h : Heap) (o : Oracle) (hc : h.Closed) (hlive : ∀ arg ∈ args, ∀ l, arg = .loc l → l < h.size)
+    (hsep : separated h (wparamsOf P i) args) (j : Nat) (arg : Ref)
+    (hj : args[j]? = some arg) (hprot : j ∉ wparamsOf P i) :
     ∀ l ∈ reach h arg, (sem P d i args h o).1.get l = h.get l :=
-  fun l hl => (frame_protected P hP d i args h o hargs).2.1 l (hwf l hl) (hsep j arg hj hprot l hl)
+  fun l hl => frame_protected_reachable P hP d i args h o hc hlive hsep j arg hj hprot l (reach_sub_Reach hl)
+
+/-- a chain is well formed for the writable set `W` when every object handed to an unprotected parameter EXISTS
+WHEN THE CALL THAT RECEIVES IT STARTS (it may have been created earlier in the chain: `to_wide_data_frame` then
+`from_wide_data_frame`), and is in `W` if it already existed before the chain (`l < n`) -/
+def ChainOK (P : List Fn) (d n : Nat) (W : Loc → Prop) : List (Nat × List Ref × Oracle) → Heap → Prop
+  | [], _ => True
+  | c :: rest, g =>
+    (∀ l, callW (wparamsOf P c.1) c.2.1 l → l < g.size ∧ (l < n → W l)) ∧
+      ChainOK P d n W rest (sem P d c.1 c.2.1 g c.2.2).1
 
 /-- POSITION IN A CHAIN: a sequence of calls of disciplined functions (each with its own arguments — which
-may be results of earlier calls — and its own oracle) leaves everything that existed BEFORE THE CHAIN
-unchanged, after every prefix of the chain, except the objects handed to unprotected parameters along it -/
+may be results of earlier calls, also for unprotected parameters — and its own oracle) leaves everything that
+existed BEFORE THE CHAIN unchanged, after every prefix of the chain, except the pre-existing objects handed to
+unprotected parameters along it -/
 theorem frame_chain_ir (P : List Fn) (hP : disciplined P = true) (d : Nat)
     (calls : List (Nat × List Ref × Oracle)) (h : Heap) (W : Loc → Prop)
-    (hW : ∀ c ∈ calls, ∀ l, callW (wparamsOf P c.1) c.2.1 l → W l ∧ l < h.size) :
+    (hok : ChainOK P d h.size W calls h) :
     PreservesW h.size W h (calls.foldl (fun g c => (sem P d c.1 c.2.1 g c.2.2).1) h) := by
-  suffices ∀ (calls : List (Nat × List Ref × Oracle)),
-      (∀ c ∈ calls, ∀ l, callW (wparamsOf P c.1) c.2.1 l → W l ∧ l < h.size) →
-      ∀ (g : Heap), PreservesW h.size W h g →
+  suffices ∀ (calls : List (Nat × List Ref × Oracle)) (g : Heap), ChainOK P d h.size W calls g →
+      PreservesW h.size W h g →
       PreservesW h.size W h (calls.foldl (fun g c => (sem P d c.1 c.2.1 g c.2.2).1) g) from
-    this calls hW h (PreservesW.refl (Nat.le_refl _))
+    this calls h hok (PreservesW.refl (Nat.le_refl _))
   intro calls
   induction calls with
-  | nil => intro _ g hg; exact hg
+  | nil => intro g _ hg; exact hg
   | cons c rest ih =>
-    intro hW g hg
+    intro g hok hg
     simp only [List.foldl_cons]
-    refine ih (fun c' hc' => hW c' (List.mem_cons_of_mem _ hc')) _ (hg.trans ?_)
-    exact (frame_protected P hP d c.1 c.2.1 g c.2.2
-      (fun l hl => Nat.lt_of_lt_of_le (hW c (List.mem_cons_self ..) l hl).2 hg.1)).mono hg.1
-      (fun l _ hl => (hW c (List.mem_cons_self ..) l hl).1)
+    obtain ⟨hc, hrest⟩ := hok
+    refine ih _ hrest (hg.trans ?_)
+    exact (frame_protected P hP d c.1 c.2.1 g c.2.2 (fun l hl => (hc l hl).1)).mono hg.1
+      (fun l hlt hl => (hc l hl).2 hlt)
+
+/-- the earlier, stronger hypothesis (every such object exists before the chain) is a special case -/
+theorem chainOK_of_static (P : List Fn) (hP : disciplined P = true) (d : Nat) (W : Loc → Prop) (n : Nat)
+    (calls : List (Nat × List Ref × Oracle))
+    (hW : ∀ c ∈ calls, ∀ l, callW (wparamsOf P c.1) c.2.1 l → W l ∧ l < n) :
+    ∀ (g : Heap), n ≤ g.size → ChainOK P d n W calls g := by
+  induction calls with
+  | nil => intro g _; trivial
+  | cons c rest ih =>
+    intro g hn
+    have hlive : ∀ l, callW (wparamsOf P c.1) c.2.1 l → l < g.size :=
+      fun l hl => Nat.lt_of_lt_of_le (hW c (List.mem_cons_self ..) l hl).2 hn
+    refine ⟨fun l hl => ⟨hlive l hl, fun _ => (hW c (List.mem_cons_self ..) l hl).1⟩, ?_⟩
+    exact ih (fun c' hc' => hW c' (List.mem_cons_of_mem _ hc')) _
+      (Nat.le_trans hn (frame_protected P hP d c.1 c.2.1 g c.2.2 hlive).1)
 
 /-- TODAY'S SOURCE: every function of the generated program respects the discipline. The chunks are
 re-proved by `decide +kernel` in `Generated/HeapIRC*.lean` against the source as it is NOW (a store,
@@ -470,9 +484,9 @@ theorem frame_translated_functions (d i : Nat) (args : List Ref) (h : Heap) (o :
   frame_protected _ all_disciplined d i args h o hwf
 
 theorem frame_translated_chain (d : Nat) (calls : List (Nat × List Ref × Oracle)) (h : Heap) (W : Loc → Prop)
-    (hW : ∀ c ∈ calls, ∀ l, callW (wparamsOf Generated.HeapIR.program c.1) c.2.1 l → W l ∧ l < h.size) :
+    (hok : ChainOK Generated.HeapIR.program d h.size W calls h) :
     PreservesW h.size W h (calls.foldl (fun g c => (sem Generated.HeapIR.program d c.1 c.2.1 g c.2.2).1) h) :=
-  frame_chain_ir _ all_disciplined d calls h W hW
+  frame_chain_ir _ all_disciplined d calls h W hok
 
 /-- the mutators by contract are not functions of `program`: the frame theorem is not claimed for them -/
 theorem mutators_excluded :
@@ -615,6 +629,37 @@ theorem irPassUnprotected_accepted :
     disciplined [irWriteFrame, ⟨"caller", [0, 1], [0], .call 2 0 [0, 1], .scalar⟩,
       ⟨"caller_copy", [0, 1], [], .seq (.alloc 2 (.sh 0) (.union [0])) (.call 3 0 [2, 1]), .scalar⟩] = true := by
   decide +kernel
+
+/-- NON-VACUITY of the chain hypothesis: a writer → reader chain. `make_frame()` allocates a new "data frame"
+(location 1) mid-chain, `write_frame(df, metadata)` then receives it at its unprotected parameter: `ChainOK` holds
+with NO pre-existing writable object, so `frame_chain_ir` applies and the Metadata object (location 0) is intact. -/
+def irMakeFrame : Fn := ⟨"make_frame", [], [], .seq (.alloc 0 (.sh 0) .dict) (.ret 0), .lv (.sh 0)⟩
+
+theorem irChain_disciplined : disciplined [irMakeFrame, irWriteFrame] = true := by decide +kernel
+
+theorem irChain_writer_reader_ok :
+    ChainOK [irMakeFrame, irWriteFrame] 1 1 (fun _ => False)
+      [(0, [], []), (1, [.loc 1, .loc 0], [])] ⟨[.dict [("cov", .scalar 1)]]⟩ := by
+  have hw0 : wparamsOf [irMakeFrame, irWriteFrame] 0 = [] := by decide +kernel
+  have hw1 : wparamsOf [irMakeFrame, irWriteFrame] 1 = [0] := by decide +kernel
+  have hsz : (sem [irMakeFrame, irWriteFrame] 1 0 [] ⟨[.dict [("cov", .scalar 1)]]⟩ []).1.size = 2 := by
+    decide +kernel
+  refine ⟨?_, ?_, trivial⟩
+  · intro l ⟨j, hj, _⟩
+    rw [hw0] at hj
+    cases hj
+  · intro l ⟨j, hj, hget⟩
+    rw [hw1] at hj
+    have hj0 : j = 0 := by simpa using hj
+    subst hj0
+    have hl : l = 1 := by simpa using hget.symm
+    subst hl
+    exact ⟨by rw [hsz]; decide, fun h => absurd h (by decide)⟩
+
+theorem irChain_writer_reader_frame :
+    ((sem [irMakeFrame, irWriteFrame] 1 1 [.loc 1, .loc 0]
+      (sem [irMakeFrame, irWriteFrame] 1 0 [] ⟨[.dict [("cov", .scalar 1)]]⟩ []).1 []).1).objs
+      = [.dict [("cov", .scalar 1)], .dict [("col", .loc 0)]] := by decide +kernel
 
 end HeapIR
 
